@@ -119,11 +119,40 @@ func (x *Exec) callFunction(st *State, ins ssa.Instruction, fn *ssa.Function, bi
 	}
 	if fc := x.P.Externs[full]; fc != nil {
 		x.UsedExterns[full] = true
+		if full == "fmt.Errorf" {
+			inner := cont
+			cont = func(st *State, res Value) {
+				x.errorfWraps(st, res, args)
+				inner(st, res)
+			}
+		}
 		x.callByContract(st, ins, full, fc, fn.Signature, fc.Params, args, cont, true)
 		return
 	}
 	x.DefaultExterns[full] = true
 	cont(st, x.freshResults(st, "ext", fn.Signature.Results()))
+}
+
+// errorfWraps: errors.Is(fmt.Errorf(format, a...), t) implies errors.Is(a[k], t) for some argument (the result
+// itself is a fresh object, never equal to t). Only used when errors.Is has a pure spec.
+func (x *Exec) errorfWraps(st *State, res Value, args []Value) {
+	if fc := x.P.Externs["errors.Is"]; fc == nil || !fc.Pure || len(args) < 2 {
+		return
+	}
+	sl := args[1]
+	n := x.lenOf(st, sl, false, nil)
+	var k int
+	if _, err := fmt.Sscanf(n, "%d", &k); err != nil || fmt.Sprintf("%d", k) != n || k > 16 {
+		return
+	}
+	anyT := types.NewInterfaceType(nil, nil)
+	is := x.D.Fun("pure.errors.Is", []string{SIface, SIface}, SBool)
+	inner := Select(x.elemArr(st, x.TM.Key(anyT)), app("sbase", sl.Term))
+	var alts []string
+	for j := 0; j < k; j++ {
+		alts = append(alts, app(is, Select(inner, fmt.Sprintf("%d", j)), "t!q"))
+	}
+	st.Assume(fmt.Sprintf("(forall ((t!q Iface)) (! (=> (%s %s t!q) %s) :pattern ((%s %s t!q))))", is, res.Term, Or(alts...), is, res.Term))
 }
 
 func paramNames(fn *ssa.Function) []string {
